@@ -292,9 +292,16 @@ impl<T: Send> SchedulerFuture<T> {
             return result;
         }
 
+        // Dropping the future hands the queue back to the scheduler if an earlier poll left it waiting for this future to be polled
+        // again (nothing else may be able to run the queue, so the sync below would never reach the result otherwise)
+        let queue           = Arc::clone(&self.queue);
+        let scheduler       = Scheduler { core: Arc::clone(&self.scheduler.core) };
+        let future_result   = Arc::clone(&self.result);
+        mem::drop(self);
+
         // Synchronise reading the result with the queue
         // TODO: if future tasks have been queued, this will wait for those as well
-        let result = self.scheduler.sync(&self.queue, || { self.result.lock().expect("Scheduler future result").result.take() });
+        let result = scheduler.sync(&queue, || { future_result.lock().expect("Scheduler future result").result.take() });
 
         // The result should now be available
         if let Some(result) = result {
